@@ -1044,7 +1044,11 @@ impl Synth<'_> {
                     body.extend(self.stmt(depth - 1, true));
                 }
                 body.push(ifs(bin("greater_eq", a("bool"), pv(), int(1 + self.rng.below(3) as i64)), vec![tagged("break", vec![])], None));
-                body.push(tagged("fassign", vec![pv(), bin("add", ti32(), pv(), int(1))]));
+                // `*cnt = Cell{value: cnt.value + 1}`: a store through the pointer, not to the variable
+                body.push(tagged(
+                    "passign",
+                    vec![var(&p, tys(Ty::Ptr)), tagged("slit", vec![cell.clone(), l(vec![a("value"), bin("add", ti32(), pv(), int(1))])])],
+                ));
                 let post = self.rng.below(3);
                 for _ in 0..post {
                     body.extend(self.stmt(depth - 1, true));
